@@ -50,6 +50,20 @@
 (*   Manifests  unordered_map<string, CPPManifest*> iteration assigns the  *)
 (*              manifest indices: the order is a function of the keys      *)
 (*              (std::hash<string> has no per-process seed)                *)
+(*   Alloc      also the address-space base (ASLR): the python-native maker  *)
+(*              has rarely taken branches (slots such as __setattr__,      *)
+(*              __setitem__, __delattr__ declared with an unexpected       *)
+(*              return type; operators of odd arity) that write a comment  *)
+(*              about a type: they print the type, never the address of    *)
+(*              its CPPType object.  PrintsPointer = TRUE documents a      *)
+(*              branch that prints the pointer (Repro_pointer.cfg).        *)
+(*   Ident      the clock and the time zone also reach a preprocessor that *)
+(*              predefines __DATE__ / __TIME__ / __TIMESTAMP__ from        *)
+(*              time()/localtime(); interrogate's does not (DateMacros =   *)
+(*              "undefined": the names stay ordinary identifiers wherever  *)
+(*              the input uses them: default arguments, #defines).         *)
+(*              DateMacros = "clock" documents the other choice            *)
+(*              (Repro_datemacro.cfg: OutputPure violated).                *)
 (*   Ident      now, $SOURCE_DATE_EPOCH (EpochEnvs: "unset", "empty", "0",  *)
 (*              "1", "normal", "huge", "junk"): the variable counts as set *)
 (*              when it is non-empty, and then the identifier is atoi() of *)
@@ -81,6 +95,11 @@ CONSTANTS Cats1, MaxOver1,   \* categories / number of overloads of one-paramete
           ZeroMeansUnset,    \* FALSE (an epoch of 0 is an epoch)
           PrevFiles,         \* hidden: earlier outputs -- subset of {"none", "same", "longer", "shorter", "symlink"}
           Truncates,         \* TRUE (open_write truncates)
+          InputVariants,     \* INPUT: what else the header contains -- subset of {"plain", "dated", "oddslot"}
+          TZs,               \* hidden: time zones
+          AslrBases,         \* hidden: where the address space starts
+          DateMacros,        \* "undefined" | "clock"
+          PrintsPointer,     \* FALSE
           TieBreak           \* "signature" | "none"
 
 (* Parameter-type categories.  The position in this table is the category id; the table is  *)
@@ -110,10 +129,13 @@ VARIABLES ov,        \* the overload set: set of tuples of category ids (the inp
           listed,    \* order in which a slot wrapper lists its overloads (doc comment, messages)
           ident,     \* file identifier of this run
           epoch,     \* $SOURCE_DATE_EPOCH of this run (an element of EpochEnvs)
+          variant,   \* input: "plain" | "dated" (uses __DATE__/__TIME__) | "oddslot" (a slot with an unexpected signature)
+          datetext,  \* what the outputs show where the input says __DATE__ / __TIME__
+          addr,      \* what the comment of the odd-slot branch shows
           stale,     \* bytes of an earlier, longer output survive behind the new contents
           outs       \* outputs of the finished runs
 
-vars == <<ov, oc, phase, cwdname, stale, rank, emitted, listed, ident, epoch, outs>>
+vars == <<ov, oc, variant, datetext, addr, phase, cwdname, stale, rank, emitted, listed, ident, epoch, outs>>
 
 -----------------------------------------------------------------------------
 (* Orders on overloads *)
@@ -197,6 +219,7 @@ N == Cardinality(ov)
 
 Init == /\ ov = {} /\ oc = "" /\ phase = "build" /\ cwdname = "" /\ rank = <<>> /\ emitted = <<>> /\ listed = <<>>
         /\ ident = 0 /\ epoch = "" /\ stale = FALSE /\ outs = <<>>
+        /\ variant = "" /\ datetext = "" /\ addr = ""
 
 \* overloads are appended in signature order, so every SET is built exactly once
 AddOverload(o) ==
@@ -204,36 +227,42 @@ AddOverload(o) ==
   /\ \A p \in ov : Len(p) = Len(o) /\ SigLess(p, o)
   /\ N < (IF Len(o) = 1 THEN MaxOver1 ELSE MaxOver2)
   /\ ov' = ov \cup {o}
-  /\ UNCHANGED <<oc, phase, cwdname, stale, rank, emitted, listed, ident, epoch, outs>>
+  /\ UNCHANGED <<oc, variant, datetext, addr, phase, cwdname, stale, rank, emitted, listed, ident, epoch, outs>>
 
 Close == /\ phase = "build" /\ ov # {}
          /\ \E n \in OcNames : oc' = n
          /\ phase' = "start"
-         /\ UNCHANGED <<ov, cwdname, stale, rank, emitted, listed, ident, epoch, outs>>
+         /\ \E w \in InputVariants : variant' = w
+         /\ UNCHANGED <<ov, datetext, addr, cwdname, stale, rank, emitted, listed, ident, epoch, outs>>
 
 StartRun == /\ phase = "start"
             /\ \E l \in Locales, e \in EnvSizes, p \in PwdValues, v \in CwdVia : cwdname' = CwdName(p, v)
             /\ phase' = "alloc"
             /\ \E f \in PrevFiles : stale' = (~Truncates /\ f = "longer")
-            /\ UNCHANGED <<ov, oc, rank, emitted, listed, ident, epoch, outs>>
+            /\ UNCHANGED <<ov, oc, variant, datetext, addr, rank, emitted, listed, ident, epoch, outs>>
 
 Alloc == /\ phase = "alloc"
          /\ \E r \in Ranks(ov) : rank' = r
+         /\ \E b \in AslrBases : addr' = IF variant # "oddslot" THEN "none"
+                                         ELSE IF PrintsPointer THEN <<"pointer", b>> ELSE "type name"
          /\ phase' = "sort"
-         /\ UNCHANGED <<ov, oc, cwdname, stale, emitted, listed, ident, epoch, outs>>
+         /\ UNCHANGED <<ov, oc, variant, datetext, cwdname, stale, emitted, listed, ident, epoch, outs>>
 
 SortStep == /\ phase = "sort"
             /\ emitted' = Sorted(TieBreak, ov, rank)
             /\ listed' = IF TieBreak = "signature" THEN SigOrder(ov) ELSE PtrOrder(ov, rank)
             /\ phase' = "ident"
-            /\ UNCHANGED <<ov, oc, cwdname, stale, rank, ident, epoch, outs>>
+            /\ UNCHANGED <<ov, oc, variant, datetext, addr, cwdname, stale, rank, ident, epoch, outs>>
 
 Ident == /\ phase = "ident"
          /\ \E now \in Time, ep \in EpochEnvs :
               /\ epoch' = ep
               /\ ident' = IF EpochSet(ep) /\ ~(ZeroMeansUnset /\ EpochVal(ep) = 0) THEN EpochVal(ep) ELSE now
+         /\ \E now \in Time, z \in TZs :
+              datetext' = IF variant # "dated" THEN "none"
+                          ELSE IF DateMacros = "clock" THEN <<"string", now, z>> ELSE "identifier"
          /\ phase' = "write"
-         /\ UNCHANGED <<ov, oc, cwdname, stale, rank, emitted, listed, outs>>
+         /\ UNCHANGED <<ov, oc, variant, addr, cwdname, stale, rank, emitted, listed, outs>>
 
 \* the three output files of a run
 \* the file name in the `#line` directive of the code file
@@ -243,14 +272,14 @@ Out == [code |-> [order |-> emitted, doc |-> listed, ident |-> ident, banner |->
                  imports |-> ImportOrder([x \in ExtTypes |-> x])],
         db   |-> [funcs |-> SigOrder(ov), manifests |-> BucketOrder(Macros), ident |-> ident],
         text |-> [funcs |-> SigOrder(ov)],
-        stale |-> stale,
+        stale |-> stale, date |-> datetext, addr |-> addr,
         epoch |-> epoch]
 
 Finish == /\ phase = "write"
           /\ outs' = Append(outs, Out)
           /\ phase' = IF Len(outs) = 0 THEN "start" ELSE "done"
-          /\ cwdname' = "" /\ stale' = FALSE /\ rank' = <<>> /\ emitted' = <<>> /\ listed' = <<>> /\ ident' = 0 /\ epoch' = ""
-          /\ UNCHANGED <<ov, oc>>
+          /\ cwdname' = "" /\ datetext' = "" /\ addr' = "" /\ stale' = FALSE /\ rank' = <<>> /\ emitted' = <<>> /\ listed' = <<>> /\ ident' = 0 /\ epoch' = ""
+          /\ UNCHANGED <<ov, oc, variant>>
 
 Overloads == {<<c>> : c \in Cats1} \cup {<<c, d>> : c, d \in Cats2}
 
@@ -262,7 +291,7 @@ Spec == Init /\ [][Next]_vars
 -----------------------------------------------------------------------------
 (* Properties *)
 
-Strip(o) == [code |-> <<o.code.order, o.code.doc, o.code.banner, o.code.line, o.stale>>, db |-> <<o.db.funcs, o.db.manifests>>, text |-> o.text]
+Strip(o) == [code |-> <<o.code.order, o.code.doc, o.code.banner, o.code.line, o.stale, o.date, o.addr>>, db |-> <<o.db.funcs, o.db.manifests>>, text |-> o.text]
 
 \* C14: with the same SOURCE_DATE_EPOCH two runs give identical files; otherwise the files
 \* differ in the identifier only, and it is the same number in code and database of one run
@@ -282,6 +311,8 @@ EmbedsArgumentsOnly ==
 EpochWins == \A i \in 1..Len(outs) : EpochSet(outs[i].epoch) => outs[i].code.ident = EpochVal(outs[i].epoch)
 
 \* an output never carries bytes of an earlier run
+\* no output shows an address or a date
+NoAddressNoDate == \A i \in 1..Len(outs) : outs[i].addr \in {"none", "type name"} /\ outs[i].date \in {"none", "identifier"}
 NothingStale == \A i \in 1..Len(outs) : ~outs[i].stale
 
 \* On the model, the sort is independent of the allocation order IFF the comparator without
